@@ -93,10 +93,16 @@ impl SdJwtVc {
   where
     R: Resolver<Url, Vec<u8>>,
   {
-    let metadata_url = {
+    let metadata_url: Url = {
       let origin = self.claims().iss.origin().ascii_serialization();
       let path = self.claims().iss.path();
-      format!("{origin}{WELL_KNOWN_VC_ISSUER}{path}").parse().unwrap()
+      // An issuer without a (scheme, host, port) origin - e.g. a DID - has no well-known metadata URL.
+      format!("{origin}{WELL_KNOWN_VC_ISSUER}{path}")
+        .parse()
+        .map_err(|_| Error::Resolution {
+          input: self.claims().iss.to_string(),
+          source: ResolverErr::Generic(anyhow!("issuer has no well-known metadata URL")),
+        })?
     };
     match resolver.resolve(&metadata_url).await {
       Err(ResolverErr::NotFound(_)) => Ok(None),
